@@ -418,7 +418,232 @@ def steps_family(world: World, res: Result, tier: str, kf: KnownFindings):
     res.samples.append({"obligation": "steps/step_and_maybe_spend[k]", "invariant": "steps[9]==sum(steps[0..9]) & steps[9]<slippage & spent+sum(steps[i]*cost[i])==T"})
 
 
-FAMILIES = {"costfn": costfn_family, "steps": steps_family}
+# --------------------------------------------------------------------------------------------
+# which size measure feeds which costing function
+
+
+def snake(variant: str) -> str:
+    out = []
+    for i, ch in enumerate(variant):
+        if ch.isupper() and i > 0 and variant[i - 1] != "_" and not variant[i - 1].isupper():
+            out.append("_")
+        out.append(ch.lower())
+    return "".join(out)
+
+
+# builtin (specification name) -> cost-model field when it is not the snake-cased builtin name
+FIELD_ALIAS = {"expModInteger": "exp_mod_int", "iData": "i_data", "bData": "b_data", "unIData": "un_i_data", "unBData": "un_b_data"}
+
+# special size measures (Plutus cost model: literal-costed arguments, list lengths), by argument position
+#   ('mem', i) generic ExMemoryUsage of argument i ; ('words', i) integer literal as a byte count rounded up to 8-byte words,
+#   must be in [0, 8192] ; ('abs', i) |integer literal| saturated to i64::MAX ; ('len', i) number of list elements ;
+#   ('len_or_mem', i) list length for a list, generic measure otherwise ; ('memsem', i) string-aware measure by semantics variant
+SPECIAL = {
+    "integerToByteString": [("mem", 0), ("words", 1), ("mem", 2)],
+    "replicateByte": [("words", 0), ("mem", 1)],
+    "shiftByteString": [("mem", 0), ("abs", 1)],
+    "rotateByteString": [("mem", 0), ("abs", 1)],
+    "dropList": [("abs", 0), ("mem", 1)],
+    "writeBits": [("mem", 0), ("len", 1), ("mem", 2)],
+    # the ledger's costing functions for the multi-scalar multiplications are linear in X only (number of scalars);
+    # the measure of the point list is not observable through them and is not checked
+    "bls12_381_G1_multiScalarMul": [("len_or_mem", 0), ("any", 1)],
+    "bls12_381_G2_multiScalarMul": [("len_or_mem", 0), ("any", 1)],
+    "appendString": [("memsem", 0), ("memsem", 1)],
+    "equalsString": [("memsem", 0), ("memsem", 1)],
+    "encodeUtf8": [("memsem", 0)],
+}
+
+
+def whichsize_family(world: World, res: Result, tier: str, kf: KnownFindings):
+    from specs import cek as CEK
+    try:
+        f_budget = world.fn("BuiltinCosts", "to_ex_budget")
+        variants = [v.name for v in world.variants("DefaultFunction")]
+        cost_fields = [n for n, _ in world.decls.get("BuiltinCosts").fields]
+    except Unsupported as e:
+        res.add(Obligation("whichsize/*", "undecided", str(e)))
+        return
+    size_fn = z3.Function("exmem", z3.IntSort(), z3.IntSort())          # generic measure of argument #i
+    sizesem_fn = z3.Function("exmem_sem", z3.IntSort(), z3.IntSort(), z3.IntSort())
+    sem_names = [v.name for v in world.variants("BuiltinSemantics")]
+    for var in variants:
+        name = CEK.VARIANT_TO_NAME.get(var)
+        oname = f"whichsize/{var}"
+        if name is None:
+            res.add(Obligation(oname, "undecided", "not a builtin of the specification table (specs/cek.py)"))
+            continue
+        arity = CEK.BUILTINS[name][1]
+        field = FIELD_ALIAS.get(name, snake(var))
+        if field not in cost_fields:
+            res.add(Obligation(oname, "undecided", f"no cost-model field `{field}` declared (naming convention changed?)"))
+            continue
+        spec_sizes = SPECIAL.get(name, [("mem", i) for i in range(arity)])
+        sem = sem_names[-1] if tier == "quick" else None
+        for semn in ([sem] if sem else sem_names):
+            _whichsize_one(world, res, f_budget, var, name, field, arity, spec_sizes, semn, sem_names, size_fn, sizesem_fn, cost_fields, oname + (f"[{semn}]" if not sem else ""))
+
+
+def _whichsize_one(world, res, f_budget, var, name, field, arity, spec_sizes, semn, sem_names, size_fn, sizesem_fn, cost_fields, oname):
+    calls = []
+
+    def stub_cost(ex, st, c, args, dty):
+        selfv = ex.read(st, args[0].cell, args[0].proj) if isinstance(args[0], Ref) else args[0]
+        r = ex.sym_int(fresh("cost"), 64, True)
+        st.events = st.events + [("cost", selfv, list(args[1:]), r)]
+        return r
+
+    def pos_of(ref):
+        for el in reversed(ref.proj):
+            if el[0] == "idx":
+                return z3.simplify(ex.to_int_expr(el[1])).as_long()
+        raise Unsupported("size measure of something that is not an argument")
+
+    def stub_mem(ex, st, c, args, dty):
+        return BV(size_fn(z3.IntVal(pos_of(args[0]))), 64, True)
+
+    def stub_log2(ex, st, c, args, dty):
+        r = ex.sym_int(fresh("log2"), 64, True)
+        st.pc.append(ex.to_int_expr(r) >= 0)
+        return r
+
+    def stub_memsem(ex, st, c, args, dty):
+        sv = args[1]
+        return BV(sizesem_fn(z3.IntVal(pos_of(args[0])), z3.IntVal(sem_names.index(sv.variant))), 64, True)
+
+    stubs = {"OneArgument::cost": stub_cost, "TwoArguments::cost": stub_cost, "ThreeArguments::cost": stub_cost,
+             "FourArguments::cost": stub_cost, "SixArguments::cost": stub_cost,
+             "Value::to_ex_mem": stub_mem, "Value::to_ex_mem_with_semantics": stub_memsem, "integer_log2": stub_log2}
+    ex = world.executor(timeout_ms=20000, stubs=stubs, max_paths=200)
+    ob = Obligation(oname, "discharged", "")
+    try:
+        st = ex.new_state()
+        objs = {}
+        fields = {}
+        for fnm in cost_fields:
+            m, c_ = fresh_obj(fnm + ".mem"), fresh_obj(fnm + ".cpu")
+            objs[fnm] = (m, c_)
+            fields[fnm] = world.adt("CostingFun", None, mem=m, cpu=c_)
+        costs = ex.alloc(st, world.adt("BuiltinCosts", None, **fields))
+        # arguments: opaque values, except positions with a literal / list measure which get a constant of the right type
+        argv, lits = [], {}
+        for i in range(arity):
+            kind = dict((p, k) for k, p in spec_sizes).get(i, "mem")
+            if kind in ("words", "abs") or (name == "expModInteger" and i == 2):
+                n = z3.Int(fresh("lit"))
+                lits[i] = n
+                argv.append(world.con(world.c_int(n)))
+            elif kind in ("len", "len_or_mem") or (name.endswith("multiScalarMul") and i == 1):
+                k = 2
+                lits[i] = k
+                argv.append(world.con(world.adt("Constant", "ProtoList", world.adt("Type", "Integer"),
+                                                VecV(Arr(tuple(world.c_int(z3.Int(fresh("e"))) for _ in range(k)))))))
+            else:
+                argv.append(fresh_obj(f"arg{i}", "Value"))
+        args = ex.alloc(st, Arr(tuple(argv)))
+        outs = ex.run(f_budget, [costs, Adt("DefaultFunction", var, ()), args, Adt("BuiltinSemantics", semn, ())], st)
+    except Unsupported as e:
+        ob.status, ob.detail = "undecided", str(e)
+        res.add(ob)
+        return
+    res.functions.update(ex.encoded)
+    n_ok = 0
+    for o in outs:
+        if o.kind == "undecided":
+            ob.status, ob.detail = "undecided", o.msg
+            break
+        if o.kind == "panic":
+            ob.status, ob.detail, ob.finding_key = "violated", f"costing panics: {o.msg}", f"costing {name}: panic"
+            break
+        v = o.value
+        # expected failure conditions of the literal measures
+        fail_cond = z3.BoolVal(False)
+        for (k, i) in spec_sizes:
+            if k == "words":
+                fail_cond = z3.Or(fail_cond, lits[i] < 0, lits[i] > 8192)
+        if v.variant == "Err":
+            if name == "expModInteger":
+                continue  # modulus range check (value-level, covered by C04)
+            r = ex.check(o.pc, z3.Not(fail_cond))
+            if r != "unsat":
+                ob.status, ob.detail, ob.finding_key = "violated", f"costing fails although every literal size is within its bounds: {v.fields[0]!r}"[:300], f"costing {name}: spurious failure"
+                break
+            continue
+        n_ok += 1
+        if ex.check(o.pc, fail_cond) == "sat":
+            ob.status, ob.detail, ob.finding_key = "violated", "costing succeeds for a literal size outside [0, 8192]", f"costing {name}: missing size check"
+            break
+        calls = [e for e in o.state.events if e[0] == "cost"]
+        if len(calls) != 2:
+            ob.status, ob.detail, ob.finding_key = "violated", f"{len(calls)} costing-function evaluations instead of 2 (mem, cpu)", f"costing {name}: calls"
+            break
+        budget = v.fields[0]
+        want_mem, want_cpu = objs[field]
+        by_self = {}
+        for (_, selfv, sizes, r) in calls:
+            if isinstance(selfv, Opaque):
+                for fnm, (m, c_) in objs.items():
+                    if selfv.e.eq(m.e):
+                        by_self[(fnm, "mem")] = (sizes, r)
+                    if selfv.e.eq(c_.e):
+                        by_self[(fnm, "cpu")] = (sizes, r)
+        if set(by_self) != {(field, "mem"), (field, "cpu")}:
+            ob.status, ob.detail = "violated", f"cost parameters used: {sorted(by_self)}; the ledger uses {field}.mem and {field}.cpu"
+            ob.finding_key = f"costing {name}: wrong parameters"
+            break
+        bm, bc = world.get(budget, "mem"), world.get(budget, "cpu")
+        if not (bm.e.eq(by_self[(field, "mem")][1].e) and bc.e.eq(by_self[(field, "cpu")][1].e)):
+            ob.status, ob.detail, ob.finding_key = "violated", "mem/cpu components swapped or not taken from the respective costing function", f"costing {name}: components"
+            break
+        bad = None
+        for dim in ("mem", "cpu"):
+            sizes, _ = by_self[(field, dim)]
+            if len(sizes) != len(spec_sizes):
+                bad = f"{dim}: {len(sizes)} sizes passed, the costing function takes {len(spec_sizes)}"
+                break
+            for j, ((k, i), sz) in enumerate(zip(spec_sizes, sizes)):
+                got = ex.to_int_expr(sz)
+                if k == "any":
+                    continue
+                if k == "mem":
+                    want = size_fn(z3.IntVal(i))
+                elif k == "memsem":
+                    want = sizesem_fn(z3.IntVal(i), z3.IntVal(sem_names.index(semn)))
+                elif k == "words":
+                    n = lits[i]
+                    want = z3.If(n == 0, 0, (n - 1) / 8 + 1)
+                elif k == "abs":
+                    n = lits[i]
+                    a = z3.If(n >= 0, n, -n)
+                    want = z3.If(a > I64_HI, z3.IntVal(I64_HI), a)
+                else:
+                    want = z3.IntVal(lits[i])
+                r = ex.check(o.pc, got != want)
+                if r == "sat":
+                    m = ex.model(o.pc, got != want)
+                    bad = f"{dim}: size #{j} passed to the costing function is {m.eval(got, True)}; the ledger's measure ({k} of argument {i}) gives {m.eval(want, True)}"
+                    break
+                if r == "unknown":
+                    bad = "?"
+            if bad:
+                break
+        if bad == "?":
+            ob.status, ob.detail = "undecided", "solver unknown"
+            break
+        if bad:
+            ob.status, ob.detail, ob.finding_key = "violated", bad, f"costing {name}: wrong size"
+            break
+    if ob.status == "discharged":
+        if n_ok == 0:
+            ob.status, ob.detail = "undecided", "vacuous: no successful costing path"
+        else:
+            ob.detail = f"{field}.{{mem,cpu}} applied to {spec_sizes}"
+            ob.witness = True
+    ob.queries, ob.solver_s = ex.queries, round(ex.solver_s, 3)
+    res.add(ob)
+
+
+FAMILIES = {"costfn": costfn_family, "steps": steps_family, "whichsize": whichsize_family}
 
 
 def run(tier: str, seed: int, only=None) -> Result:
